@@ -48,8 +48,10 @@ func (l *simLogger) Error(msg string, kv ...any) {
 		l.node.Panics = append(l.node.Panics, s)
 	}
 }
-func (l *simLogger) With(kv ...any) log.Logger { return &simLogger{node: l.node, kv: append(l.kv, kv...)} }
-func (l *simLogger) Impl() any                  { return l }
+func (l *simLogger) With(kv ...any) log.Logger {
+	return &simLogger{node: l.node, kv: append(l.kv, kv...)}
+}
+func (l *simLogger) Impl() any { return l }
 
 type MpTx struct {
 	Bytes    []byte
